@@ -56,7 +56,17 @@ let parse_msg s =
       m_entries = parse_entries (replace_char '_' ':' ents); m_snapshot = parse_snapshot snap }
   | _ -> failwith ("bad msg " ^ s)
 
-let fmt_msgs ms = "[" ^ join "," (List.sort compare (List.map fmt_msg ms)) ^ "]"
+let msg_group (m : msg) =
+  match int_of_n m.m_type with
+  | 14 | 15 | 26 | 27 | 24 -> 0
+  | 12 | 13 | 16 -> 1
+  | 17 | 18 -> 2
+  | 19 | 20 -> 3
+  | _ -> 4
+let fmt_msgs ms =
+  join " " (List.mapi (fun g name ->
+    name ^ "=[" ^ join "," (List.sort compare (List.map fmt_msg (List.filter (fun m -> msg_group m = g) ms))) ^ "]")
+    ["mvote"; "mrepl"; "mhb"; "mread"; "mother"])
 
 let rstate_num = function RRetry -> "0" | RWait -> "1" | RReplicate -> "2" | RSnapshot -> "3"
 
@@ -82,7 +92,7 @@ let project (r : raft) : string =
   add (" reads=[" ^ join "," (List.map (fun rs ->
     Printf.sprintf "%s:%s:%s:%s:%s" (sn (fst rs.rs_ctx)) (sn (snd rs.rs_ctx)) (sn rs.rs_index) (sn rs.rs_from)
       (join_ids (List.sort compare_n rs.rs_confirmed))) r.r_reads) ^ "]");
-  add (" msgs=" ^ fmt_msgs r.r_msgs);
+  add (" " ^ fmt_msgs r.r_msgs);
   add (" ready=[" ^ join "," (List.map (fun (i, (lo, hi)) -> Printf.sprintf "%s:%s:%s" (sn i) (sn lo) (sn hi)) r.r_ready) ^ "]");
   add (" dent=" ^ fmt_entries r.r_dropped_entries);
   add (" dreads=[" ^ join "," (List.map (fun (lo, hi) -> sn lo ^ ":" ^ sn hi) r.r_dropped_reads) ^ "]");
